@@ -145,7 +145,7 @@ Theorem C09_comparison_filter_from_text : forall cfg parse_float regex_ok ffun a
 Proof.
   intros cfg parse_float regex_ok ffun afun regex_match Hf Ha i o lit f doc st Hs Hvg Hl Hpf Hd Hok.
   assert (H1 : forallb fstep_ok [FC i o lit] = true) by (cbn [forallb fstep_ok]; rewrite Hs, Hvg, Hl; reflexivity).
-  assert (H2 : forallb (fstep_okp parse_float) [FC i o lit] = true) by (cbn [forallb fstep_okp]; rewrite Hpf; reflexivity).
+  assert (H2 : forallb (fstep_okp parse_float regex_ok) [FC i o lit] = true) by (cbn [forallb fstep_okp]; rewrite Hpf; reflexivity).
   destruct (fchain_retrieval cfg parse_float regex_ok ffun afun regex_match Hf Ha (FC i o lit) [] doc st H1 H2 Hd Hok) as (t & Hp & H).
   exists t. split; [exact Hp|]. cbn [nav_allf nav1f] in H. unfold lit_num in H. rewrite Hpf in H.
   rewrite (flat_map_single (fun x : list pstep * value => x)), map_id in H. exact H.
